@@ -1263,7 +1263,15 @@ where
     // trailer delivery should omit Content-Length; the branch below then
     // upgrades the framing to chunked and H2BlockConverter on the back side
     // passes the trailer block through intact.
-    if !end_stream && kawa.body_size == BodySize::Empty {
+    // An interim response (1xx) is a header section and nothing else: the final
+    // response follows on the same stream. It gets no body framing and is
+    // complete as soon as its header block is (RFC 9110 §15.2, RFC 9112 §6.1).
+    let interim = matches!(kawa.kind, Kind::Response)
+        && matches!(
+            kawa.detached.status_line,
+            StatusLine::Response { code, .. } if (100..200).contains(&code)
+        );
+    if !end_stream && !interim && kawa.body_size == BodySize::Empty {
         kawa.body_size = BodySize::Chunked;
         kawa.push_block(Block::Header(Pair {
             key: Store::Static(b"Transfer-Encoding"),
@@ -1287,10 +1295,10 @@ where
     // `BodySize::Empty` upgrade-to-chunked branch guarantees we never enter the
     // phase mapping with an unframed body when more bytes are coming.
     debug_assert!(
-        end_stream || kawa.body_size != BodySize::Empty,
+        end_stream || interim || kawa.body_size != BodySize::Empty,
         "a continuing stream must have a resolved body framing before phasing"
     );
-    kawa.parsing_phase = if end_stream {
+    kawa.parsing_phase = if end_stream || interim {
         // No DATA frame follows: the message is complete, whatever length it
         // declares (1xx / 204 / 304 and responses to HEAD may carry a
         // Content-Length, or none at all, without any content).
@@ -1307,6 +1315,7 @@ where
     // length-framed body lands in Body/Terminated, never mid-chunk.
     debug_assert!(
         end_stream
+            || interim
             || !matches!(kawa.body_size, BodySize::Length(n) if n > 0)
             || kawa.parsing_phase == ParsingPhase::Body,
         "a non-empty Content-Length body must transition to ParsingPhase::Body"
